@@ -183,7 +183,10 @@ Definition pcmp_agrees (psort : option (tree -> tree -> comparison)) (pcmp : opt
   | _, _ => False
   end.
 (* the answers of a comparator do not contradict each other (every total preorder, as Vec::sort_by
-   asks for, is like that; nothing more is needed here) *)
+   asks for, is like that; nothing more is needed for the theorems, which are about the model's
+   stable insertion sort.  NOT included: transitivity.  Vec::sort_by requires a total order and may
+   panic or return an unspecified order otherwise; that the insertion sort of the model is the code's
+   sort holds for total preorders only -- an assumption of the cone, not a premise of the theorems) *)
 Definition cmp_consistent {A} (cmp : A -> A -> comparison) : Prop := forall a b, cmp a b = Gt -> cmp b a <> Gt.
 Definition pair_cmp_consistent (ecmp : option pair_cmp) : Prop :=
   match ecmp with Some e => cmp_consistent e | None => True end.
